@@ -2,12 +2,13 @@
    Directives: ExtrOcamlBasic only. *)
 From Coq Require Extraction ExtrOcamlBasic.
 From Coq Require Import ZArith.   (* ocaml/zio.ml (shared by all drivers) needs BinNums *)
-From VModel Require Import FFT Par.
+From VBase Require Import MachInt.
+From VModel Require Import FFT Par ToyHash.
 Extraction Language OCaml.
 Separate Extraction
   npo2 par_chunks batch_iter_chunks
   permute_dispatch permute_par permute_par_interleaved permute_par_tasks permute_par_steps permute_num_batches serial_permute
   merkle_par_plan merkle_serial_steps merkle_serial merkle_par merkle_par_interleaved merkle_nodes_dispatch merkle_init
   t_writes t_reads t_run independentb pairwiseb compose exec reorder merge_by all_empty
-  Z.of_nat
+  Z.of_nat toy_hash toy_merge to_le_bytes
   transpose_plan transpose_plan_unbounded plan_cells transpose_spec get_num_batches fragment_plan.
